@@ -10,7 +10,7 @@ import itertools
 
 from .. import core
 from ..firmware import (RATE_MAX, TWO31, lm_budget_table, lm_closed, lm_stepped, lt_in_domain,
-                        lt_states, split31)
+                        lt_total_closed)
 
 PROPERTY = "C03"
 P27, P28, P29, P30, P31 = 1 << 27, 1 << 28, 1 << 29, 1 << 30, 1 << 31
@@ -181,6 +181,64 @@ def _rows_chunk(args):
     return part
 
 
+def boundary_accums(steps, rate, accel):
+    """Start accumulators that put the completion of the budget exactly on a tick (zero
+    margin), one count short of it and one count past it - for the tick that completes the
+    budget from accumulator 0 and the tick before.  Only candidates are produced here; the
+    expected answer always comes from the exact oracle."""
+    base = lm_closed(steps, rate, accel, 0)
+    if base[0] != "done":
+        return []
+    out = set()
+    for tick in (base[1] - 1, base[1]):
+        if tick < 1:
+            continue
+        total = lt_total_closed(rate, accel, 0, tick)
+        for target in (steps * TWO31, (1 - steps) * TWO31 - 1, -steps * TWO31,
+                       (steps - 1) * TWO31 + TWO31 - 1):
+            for delta in (-1, 0, 1):
+                cand = target - total + delta
+                if 0 <= cand < TWO31:
+                    out.add(cand)
+    return sorted(out)
+
+
+def _boundary_chunk(rows):
+    part = core.Part()
+    for steps, rate, accel in rows:
+        for accum in boundary_accums(steps, rate, accel):
+            closed = lm_closed(steps, rate, accel, accum)
+            if closed[0] != "done":
+                part.count("long_out_of_domain")
+                continue
+            expect = closed[1:]
+            if closed[1] <= 4096:       # model conformance wherever the machine can be stepped
+                if lm_stepped(steps, rate, accel, accum, 4096) != closed:
+                    raise AssertionError(f"reference oracles disagree for "
+                                         f"{(steps, rate, accel, accum)}")
+                part.count("model_conformance_checks")
+            for clause, msg in check_lm(steps, rate, accel, accum, expect):
+                _report(part, clause, steps, rate, accel, accum, expect, msg)
+            for clause, msg in check_mirror(steps, rate, accel, accum, expect):
+                _report(part, clause, steps, rate, accel, accum, expect, msg)
+            part.count("impl_cases")
+            part.count("boundary_directed_cases")
+            if expect[2] in (0, 1, TWO31 - 1, TWO31 - 2):
+                part.count("exact_boundary_hits")
+    return part
+
+
+def boundary_rows(ctx):
+    rates = sorted(_pm([P31 - 1, P31 - 2, P30, P30 + 1, 123456789, 1800095000, 80000000]))
+    accels = [0, 1, -1, 2, 5, -3, 26012345, -26012345]
+    budgets = [1, 2, 1000, (1 << 22) + 1, 9000000, (1 << 26) + 3]
+    if ctx.thorough:
+        rates += [500000, -500000, 1000000007, -1000000007]
+        accels += [3, -7, 1 << 8, -(1 << 8)]
+        budgets += [3, 1 << 23, 1 << 30]
+    return [(s, r, a) for s in budgets for r in rates for a in accels]
+
+
 def cannot_move_cases():
     """(steps, rate, accel) requests that cannot move -> (0, 0, 0)."""
     vals = [0, 1, -1, 5, -7, P30, -P30, P31 - 1]
@@ -220,6 +278,7 @@ def run(ctx):
             if not (r[0] == 0 and r[1] == 0)]
     chunks = [(c, budgets, long_budgets, max_ticks) for c in core.split(rows, 128)]
     part = core.fan_out(ctx, _rows_chunk, chunks)
+    part.merge(core.fan_out(ctx, _boundary_chunk, core.split(boundary_rows(ctx), 64)))
     _cannot_move(part)
     cnt = part.counters
     coverage = {
@@ -231,13 +290,17 @@ def run(ctx):
         "rule": "LM machine stepped once (up to max_ticks) from every (rate, accel, accum|clear) "
                 "of the lattice; each budget s first reached at tick k gives the oracle "
                 "(k, pos_k, acc_k) for calculate_lm(s, ...), its legacy mirror and moveTimeLM; "
-                "budgets not reached in max_ticks use the exact bisection oracle; non-trivial = "
+                "budgets not reached in max_ticks use the exact bisection oracle; boundary-directed "
+                "family: budgets up to 2^26 (2^30) x rates x accels with start accumulators "
+                "constructed so that the budget completes exactly on a tick, one count before "
+                "and one count after; non-trivial = "
                 "moves that reverse direction before the budget is reached",
         "samples": core.rotate(part.samples, ctx.seed, 4),
         "rows": cnt.get("rows", 0),
         "budgets": budgets,
         "long_budgets": long_budgets,
         "long_cases": cnt.get("long_cases", 0),
+        "boundary_directed_cases": cnt.get("boundary_directed_cases", 0),
         "steps_in_both_directions_cases": cnt.get("steps_in_both_directions", 0),
         "exact_boundary_hits": cnt.get("exact_boundary_hits", 0),
         "cannot_move_cases": cnt.get("cannot_move_cases", 0),
